@@ -1113,8 +1113,9 @@ fn get_wrapping_or_insert<'w, D: TextDecorator>(
 ) -> &'w mut WrappedBlock<Vec<D::Annotation>> {
     wrapping.get_or_insert_with(|| {
         let wwidth = match options.wrap_width {
-            // A zero wrap width could never make progress; treat it as 1.
-            Some(ww) => ww.min(width).max(1),
+            // A zero wrap width could never make progress; treat it as 1 (but never
+            // wider than the block itself).
+            Some(ww) => ww.max(1).min(width),
             None => width,
         };
         WrappedBlock::new(
